@@ -10,8 +10,24 @@ HAND_WRITTEN = ("__init__.py", "listener.py", "auxiliary.py", "program.py", "uti
 _state = {"imported": False, "warm": False}
 
 
+GENERATED = ("blackbirdLexer.py", "blackbirdParser.py", "blackbirdListener.py")
+
+
 def pkg_dir():
     return os.path.join(PKG_PATH, "blackbird")
+
+
+def hand_written_files():
+    """Every Python source of the package that is not ANTLR output or a test: the files
+    inside which interruptions may be injected (new modules of a refactoring included)."""
+    out = []
+    top = pkg_dir()
+    for dirpath, dirnames, filenames in os.walk(top):
+        dirnames[:] = sorted(d for d in dirnames if d not in ("tests", "__pycache__"))
+        for fn in sorted(filenames):
+            if fn.endswith(".py") and fn not in GENERATED and fn != "_version.py":
+                out.append(os.path.join(dirpath, fn))
+    return out
 
 
 def import_blackbird():
